@@ -160,6 +160,46 @@ fn behind_ecall(c: &Case, site: &Site) -> bool {
     true
 }
 
+/// Can a return be reached from the planted instruction (calls fall through, an exit ecall ends the
+/// path)? A saved register that is overwritten on a path that only ever leaves through `exit` is
+/// never seen by a caller: the planted line is then no violation. (Harness AST only.)
+fn can_reach_return(c: &Case, site: &Site) -> bool {
+    let Some(first) = site.lines.first() else {
+        return true;
+    };
+    let flat = c.g.prog.flatten();
+    let Some(start) = flat.line_of.iter().position(|l| l == first) else {
+        return true;
+    };
+    let is_exit = |i: usize| i > 0 && matches!(&flat.ins[i], Ins::Ecall) && matches!(&flat.ins[i - 1], Ins::AluI { rd: 17, rs1: 0, imm: 10 | 93, .. });
+    let mut seen = vec![false; flat.ins.len() + 1];
+    let mut stack = vec![start];
+    while let Some(i) = stack.pop() {
+        if i >= flat.ins.len() || seen[i] {
+            continue;
+        }
+        seen[i] = true;
+        match &flat.ins[i] {
+            Ins::Ecall if is_exit(i) => {}
+            Ins::Branch { label, .. } => {
+                stack.push(i + 1);
+                if let Some(t) = flat.code_labels.get(label) {
+                    stack.push(*t);
+                }
+            }
+            Ins::Jal { rd: 1, .. } => stack.push(i + 1),
+            Ins::Jal { label, .. } => {
+                if let Some(t) = flat.code_labels.get(label) {
+                    stack.push(*t);
+                }
+            }
+            Ins::Jalr { .. } => return true,
+            _ => stack.push(i + 1),
+        }
+    }
+    false
+}
+
 fn reg_class(r: Option<Reg>) -> &'static str {
     match r {
         None => "-",
@@ -200,6 +240,11 @@ pub fn run(ctx: &Ctx) -> i32 {
                     acc.count(&format!("not_placed:{}", kind.name()), 1);
                     continue;
                 };
+                if matches!(kind, Inject::SavedUnsavedWrite | Inject::SavedNoRestore | Inject::SpNoRestore | Inject::RaClobbered) && !can_reach_return(&c, &site) {
+                    // planted on a path that can only leave through `exit`: not a violation
+                    acc.count("site_cannot_return_discarded", 1);
+                    continue;
+                }
                 // the base program must be clean in this run
                 let base_text = crate::print::print(&c.g.base, &Style::plain(), &mut Rng::new(0)).text;
                 match analyze(&base_text) {
